@@ -91,10 +91,13 @@ type Case struct {
 	WaitU int `json:"wait_u,omitempty"`
 	// the storage is reached over gRPC: every error it reports arrives as a status error (errors.GRPCWrap), which
 	// errors.Is of the library classifies like the sentinel it stands for
-	GRPC bool   `json:"grpc,omitempty"`
-	Pre  string `json:"pre,omitempty"`
-	PreK int    `json:"pre_k,omitempty"`
-	Jit  uint64 `json:"jit"`
+	GRPC bool `json:"grpc,omitempty"`
+	// while the tenure runs, contender 2 calls LockWithCtx once and its Create request fails with a transient error
+	// (it never reaches the store): the attempt returns the error, and the holder's record is none of its business
+	ContFault bool   `json:"cont_fault,omitempty"`
+	Pre       string `json:"pre,omitempty"`
+	PreK      int    `json:"pre_k,omitempty"`
+	Jit       uint64 `json:"jit"`
 }
 
 type outcome struct {
@@ -478,6 +481,22 @@ func runScenario(cs Case) (o *outcome) {
 		}
 	}()
 
+	if cs.ContFault {
+		wg.Add(1)
+		go func() {
+			defer wg.Done()
+			defer func() { recover() }()
+			time.Sleep(ttl/3 + time.Duration(prng.New(cs.Jit, "C05contfault", 0).Intn(int(ttl/3)+1)))
+			c.mu.Lock()
+			c.contFault = true
+			c.mu.Unlock()
+			ctxS, cancelS := context.WithTimeout(ctx, 300*time.Millisecond)
+			defer cancelS()
+			if l2.LockWithCtx(ctxS) == nil {
+				l2.Unlock()
+			}
+		}()
+	}
 	endAt := acquiredAt.Add(time.Duration(cs.HoldU) * ttl / 24)
 	switch cs.End {
 	case "unlock":
@@ -1078,6 +1097,8 @@ func generate(seed uint64, thorough bool) []Case {
 					add(Case{TTLms: ttl, Acq: acq(), End: x.pos, EndK: x.k, GRPC: true})
 				}
 			}
+			// a contender's acquisition attempt fails with a transient error while the tenure runs
+			add(Case{TTLms: ttl, Acq: acq(), End: "unlock", HoldU: r.Range(60, 84), ContFault: true})
 			// (xi) the acquisition had to wait 0.6 .. 1.7 lease periods inside Lock for another Locker
 			add(Case{TTLms: ttl, Acq: "lock", End: "unlock", HoldU: r.Range(60, 84), WaitU: r.Range(15, 40)})
 			// Unlock while the error of a lost request is on its way back
